@@ -554,6 +554,10 @@ func (sc *Scenario) timed() bool     { return sc.generator() || sc.Stage == "thr
 func run(sc *Scenario, diag bool) (res Result) {
 	e := &env{sc: sc, calls: map[int]int{}, errs: map[int]*stageErr{}, envStop: make(chan struct{}), start: time.Now(), gated: sc.Gated}
 	e.ctx, e.cancel = context.WithCancel(context.Background())
+	if sc.PreCancel {
+		e.cancelled = true
+		e.cancel()
+	}
 	post := build(e)
 	fail := func(m string) Result {
 		// release everything the harness owns so that the bubble can end
